@@ -46,6 +46,13 @@ Definition same (s s' : gst) : Prop := cur_triple s' = cur_triple s.
 Lemma same_guard s s' : same s s' -> guard s' = guard s.
 Proof. unfold same, cur_triple. intros H. injection H. auto. Qed.
 Notation isbit := (Sound.isbit p).
+(* the gadget is not inside a guarded region, or the active guard wire evaluates to 1 under the assignment
+   (a true guard is transparent: C07) *)
+Definition Gok (s : gst) : Prop := match guard s with None => True | Some g => ew g == 1 end.
+Lemma Gok_same s s' : same s s' -> Gok s -> Gok s'.
+Proof. intros S H. pose proof (same_guard s s' S) as E. unfold Gok in *. destruct (guard s') as [g'|], (guard s) as [g|]; try discriminate E; try exact I. inversion E; subst. exact H. Qed.
+Lemma Gok_none s : guard s = None -> Gok s.
+Proof. intros H. unfold Gok. rewrite H. exact I. Qed.
 
 Lemma holds_unfold a b y : holds (p:=p) w (wire a, wire b, wire y) <-> ew a * ew b == ew y.
 Proof. unfold holds, ew. cbn [fst snd]. reflexivity. Qed.
@@ -53,45 +60,54 @@ Proof. unfold holds, ew. cbn [fst snd]. reflexivity. Qed.
 (* ---- primitives ---- *)
 Lemma mul_s x y s (Q : slc -> gst -> Prop) : (forall r s', same s s' -> ew x * ew y == ew r -> Q r s') -> wps (mul x y) s Q.
 Proof. intros HQ. unfold mul, privval, emit, emitc, ret. cbn [bind wps]. intros H. apply HQ; [reflexivity|]. apply holds_unfold. exact H. Qed.
-Lemma add_constraint_s v x y chk s (Q : unit -> gst -> Prop) : guard s = None -> (ew v * ew x == ew y -> Q tt s) -> wps (add_constraint v x y chk) s Q.
-Proof. intros G HQ. unfold add_constraint, get. cbn [bind wps]. rewrite G. unfold raise_if, emit, emitc. cbn [bind wps]. intros H. apply HQ. apply holds_unfold. exact H. Qed.
-Lemma assert_zero_s x s (Q : unit -> gst -> Prop) : guard s = None -> (ew x == 0 -> Q tt s) -> wps (assert_zero x) s Q.
+Lemma add_constraint_s v x y chk s (Q : unit -> gst -> Prop) : Gok s -> (forall s', same s s' -> ew v * ew x == ew y -> Q tt s') -> wps (add_constraint v x y chk) s Q.
 Proof.
-  intros G HQ. unfold assert_zero, get, raise_if. cbn [bind wps]. apply add_constraint_s; [exact G|]. rewrite ew_ZERO. intros H. apply HQ.
+  intros G HQ. unfold add_constraint, get. cbn [bind wps]. unfold Gok in G. destruct (guard s) as [g|].
+  - unfold privval, emit, emitc. cbn [bind wps]. intros H1 H2. apply HQ; [reflexivity|].
+    apply (proj1 (holds_unfold _ _ _)) in H1. apply (proj1 (holds_unfold _ _ _)) in H2. rewrite ew_add in H1. rewrite ew_ZERO, G in H2.
+    assert (D : ew (var_slc (p:=p) (- (npriv s + 1))) == 0) by (rewrite <- H2; apply eq_feq; ring).
+    rewrite H1, D. apply eq_feq. ring.
+  - unfold raise_if, emit, emitc. cbn [bind wps]. intros H. apply HQ; [reflexivity|]. apply holds_unfold. exact H.
+Qed.
+Lemma assert_zero_s x s (Q : unit -> gst -> Prop) : Gok s -> (forall s', same s s' -> ew x == 0 -> Q tt s') -> wps (assert_zero x) s Q.
+Proof.
+  intros G HQ. unfold assert_zero, get, raise_if. cbn [bind wps]. apply add_constraint_s; [exact G|]. rewrite ew_ZERO. intros s' S H. apply HQ; [exact S|].
   symmetry. rewrite <- H. apply eq_feq. ring.
 Qed.
-Lemma boolctor_s x s (Q : slc -> gst -> Prop) : guard s = None -> (isbit (ew x) -> Q x s) -> wps (boolctor x) s Q.
+Lemma boolctor_s x s (Q : slc -> gst -> Prop) : Gok s -> (forall s', same s s' -> isbit (ew x) -> Q x s') -> wps (boolctor x) s Q.
 Proof.
   intros G HQ. unfold boolctor, raise_if, ret. cbn [bind wps]. apply wps_bind. apply add_constraint_s; [exact G|].
-  rewrite ew_rsubc, ew_ZERO. intros H. cbn [wps]. apply HQ. exact H.
+  rewrite ew_rsubc, ew_ZERO. intros s' S H. cbn [wps]. apply HQ; [exact S|exact H].
 Qed.
-Lemma privbool_s h s (Q : slc -> gst -> Prop) : guard s = None -> (forall r s', same s s' -> isbit (ew r) -> Q r s') -> wps (privbool h) s Q.
-Proof. intros G HQ. unfold privbool, raise_if, privval. cbn [bind wps]. apply boolctor_s; [exact G|]. intros H. apply HQ; [reflexivity|exact H]. Qed.
-Lemma bits_s (h : nat -> valexp) : forall n i s (Q : list slc -> gst -> Prop), guard s = None ->
+Lemma privbool_s h s (Q : slc -> gst -> Prop) : Gok s -> (forall r s', same s s' -> isbit (ew r) -> Q r s') -> wps (privbool h) s Q.
+Proof.
+  intros G HQ. unfold privbool, raise_if, privval. cbn [bind wps]. apply boolctor_s; [exact G|]. intros s' S H. apply HQ; [exact S|exact H].
+Qed.
+Lemma bits_s (h : nat -> valexp) : forall n i s (Q : list slc -> gst -> Prop), Gok s ->
   (forall bs s', same s s' -> length bs = n -> Forall (fun b => isbit (ew b)) bs -> Q bs s') -> wps (mapM_range (fun j => privbool (h j)) i n) s Q.
 Proof.
   induction n as [|n IH]; intros i s Q G HQ; cbn [mapM_range].
   - cbn [ret wps]. apply HQ; [reflexivity|reflexivity|constructor].
-  - apply wps_bind. apply privbool_s; [exact G|]. intros r s1 S1 Hr. apply wps_bind. apply IH; [rewrite (same_guard _ _ S1); exact G|].
+  - apply wps_bind. apply privbool_s; [exact G|]. intros r s1 S1 Hr. apply wps_bind. apply IH; [exact (Gok_same _ _ S1 G)|].
     intros bs s2 S2 L Hb. cbn [ret wps]. apply HQ; [unfold same in *; congruence|cbn; congruence|constructor; assumption].
 Qed.
 (* to_bits(k): k boolean wires whose weighted sum is the operand *)
-Lemma to_bits_s x k s (Q : list slc -> gst -> Prop) : guard s = None ->
+Lemma to_bits_s x k s (Q : list slc -> gst -> Prop) : Gok s ->
   (forall bs s', same s s' -> length bs = k -> Forall (fun b => isbit (ew b)) bs -> ew x == wsum (map ew bs) 0 -> Q bs s') -> wps (to_bits x k) s Q.
 Proof.
   intros G HQ. unfold to_bits, get, raise_if. cbn [bind wps]. apply wps_bind. apply bits_s; [exact G|]. intros bs s1 S1 L Hb.
-  apply wps_bind. apply assert_zero_s; [rewrite (same_guard _ _ S1); exact G|]. rewrite ew_sub, ew_from_bits. intros H. cbn [ret wps].
-  apply HQ; try assumption. transitivity (ew x - wsum (map ew bs) 0 + wsum (map ew bs) 0); [apply eq_feq; ring|]. rewrite H. apply eq_feq. ring.
+  apply wps_bind. apply assert_zero_s; [exact (Gok_same _ _ S1 G)|]. rewrite ew_sub, ew_from_bits. intros s2 S2 H. cbn [ret wps].
+  apply HQ; try assumption; [unfold same in *; congruence|]. transitivity (ew x - wsum (map ew bs) 0 + wsum (map ew bs) 0); [apply eq_feq; ring|]. rewrite H. apply eq_feq. ring.
 Qed.
 (* the operand of a k-bit decomposition is forced into [0, 2^k): the requested width is the width enforced (C16, C03) *)
-Lemma to_bits_range_s x k s (Q : list slc -> gst -> Prop) : guard s = None ->
+Lemma to_bits_range_s x k s (Q : list slc -> gst -> Prop) : Gok s ->
   (forall bs s', same s s' -> (exists v, 0 <= v < 2 ^ Z.of_nat k /\ ew x == v) -> Q bs s') -> wps (to_bits x k) s Q.
 Proof.
   intros G HQ. apply to_bits_s; [exact G|]. intros bs s' S L Hb Hx. apply HQ; [exact S|].
   apply (to_bits_rejects p Hp k (map ew bs) (ew x)); [rewrite map_length; exact L| |exact Hx].
   apply Forall_forall. intros z Hz. apply in_map_iff in Hz. destruct Hz as [b [<- Hin]]. rewrite Forall_forall in Hb. exact (Hb b Hin).
 Qed.
-Lemma assert_positive_s x k s (Q : unit -> gst -> Prop) : guard s = None ->
+Lemma assert_positive_s x k s (Q : unit -> gst -> Prop) : Gok s ->
   (forall s', same s s' -> (exists v, 0 <= v < 2 ^ Z.of_nat k /\ ew x == v) -> Q tt s') -> wps (assert_positive x k) s Q.
 Proof.
   intros G HQ. unfold assert_positive, get, raise_if. cbn [bind wps]. apply wps_bind. apply to_bits_range_s; [exact G|].
@@ -108,15 +124,15 @@ Proof.
 Qed.
 
 (* ---- check_positive: the sign bit of the centred representative ---- *)
-Lemma check_positive_s x k s (Q : slc -> gst -> Prop) : guard s = None ->
+Lemma check_positive_s x k s (Q : slc -> gst -> Prop) : Gok s ->
   (forall r s', same s s' ->
      (ew r == 1 /\ exists v, 0 <= v < 2 ^ Z.of_nat k /\ ew x == v) \/ (ew r == 0 /\ exists v, - 2 ^ Z.of_nat k <= v < 0 /\ ew x == v) -> Q r s') ->
   wps (check_positive x k) s Q.
 Proof.
   intros G HQ. unfold check_positive, get, raise_if. cbn [bind wps]. apply wps_bind. apply privbool_s; [exact G|]. intros r s1 S1 Hr.
-  apply wps_bind. apply bits_s; [rewrite (same_guard _ _ S1); exact G|]. intros bs s2 S2 L Hb.
-  apply wps_bind. apply add_constraint_s; [rewrite (same_guard _ _ S2), (same_guard _ _ S1); exact G|].
-  rewrite ew_scale, !ew_add, ew_from_bits, ew_rsubc. intros H. cbn [ret wps]. apply HQ; [unfold same in *; congruence|].
+  apply wps_bind. apply bits_s; [exact (Gok_same _ _ S1 G)|]. intros bs s2 S2 L Hb.
+  apply wps_bind. apply add_constraint_s; [exact (Gok_same _ _ S2 (Gok_same _ _ S1 G))|].
+  rewrite ew_scale, !ew_add, ew_from_bits, ew_rsubc. intros s3 S3 H. cbn [ret wps]. apply HQ; [unfold same in *; congruence|].
   apply (check_positive_sound p Hp k (map ew bs) (ew r) (ew x)); [rewrite map_length; exact L| |exact Hr|].
   - apply Forall_forall. intros z Hz. apply in_map_iff in Hz. destruct Hz as [b [<- Hin]]. rewrite Forall_forall in Hb. exact (Hb b Hin).
   - rewrite <- H. apply eq_feq. ring.
@@ -127,15 +143,15 @@ Proof.
   intros HQ. unfold ite_lc. apply wps_bind. apply mul_s. intros m s1 S1 Hm. cbn [ret wps]. apply HQ; [exact S1|].
   rewrite ew_add, <- Hm, ew_sub. reflexivity.
 Qed.
-Lemma truediv_s x y s (Q : slc -> gst -> Prop) : guard s = None -> (forall r s', same s s' -> ew y * ew r == ew x -> Q r s') -> wps (truediv x y) s Q.
+Lemma truediv_s x y s (Q : slc -> gst -> Prop) : Gok s -> (forall r s', same s s' -> ew y * ew r == ew x -> Q r s') -> wps (truediv x y) s Q.
 Proof.
   intros G HQ. unfold truediv, get, raise_if, privval. cbn [bind wps]. apply wps_bind. apply add_constraint_s; [exact G|].
-  intros H. cbn [ret wps]. apply HQ; [reflexivity|exact H].
+  intros s' S H. cbn [ret wps]. apply HQ; [exact S|exact H].
 Qed.
 
-Lemma lcval_s x s (Q : unit -> gst -> Prop) : guard s = None -> (forall s', same s s' -> w (npub s + 1) == ew x -> Q tt s') -> wps (lcval x) s Q.
+Lemma lcval_s x s (Q : unit -> gst -> Prop) : Gok s -> (forall s', same s s' -> w (npub s + 1) == ew x -> Q tt s') -> wps (lcval x) s Q.
 Proof.
-  intros G HQ. unfold lcval, pubval. cbn [bind wps]. apply assert_zero_s; [exact G|]. rewrite ew_sub. intros H. apply HQ; [reflexivity|].
+  intros G HQ. unfold lcval, pubval. cbn [bind wps]. apply assert_zero_s; [exact G|]. rewrite ew_sub. intros s' S H. apply HQ; [exact S|].
   assert (E : ew (var_slc (p:=p) (npub s + 1)) = w (npub s + 1)) by (unfold ew; cbn [wire var_slc eval fold_right fst snd]; ring).
   rewrite <- E. transitivity (ew x - (ew x - ew (var_slc (p:=p) (npub s + 1)))); [apply eq_feq; ring|]. rewrite H. apply eq_feq. ring.
 Qed.
@@ -144,7 +160,7 @@ Qed.
 Section Run.
 Variable c : cfg.
 Variables (s : gst).
-Hypothesis G : guard s = None.
+Hypothesis G : Gok s.
 Notation sat cs := (Forall (holds (p:=p) w) (cons_of cs)).
 
 Theorem mul_forced x y r s' cs : run (mul x y) s = (inl r, s', cs) -> sat cs -> ew r == ew x * ew y.
